@@ -7,12 +7,12 @@ import threading
 from . import common as c
 
 SUPPORT = ["Num/Dec.v", "Num/DecLemmas.v", "Num/IntParse.v", "Num/IntParseProofs.v", "Num/NumGrammar.v", "Num/NumGrammarProofs.v",
-           "Num/SkipNumberProofs.v", "Num/Range.v", "Num/RangeProofs.v", "Num/IntPrint.v", "Num/IntPrintProofs.v", "Num/IntPrintExact.v",
-           "Num/FloatFmt.v", "Num/FloatFmtProofs.v", "Num/WriteDecDenotes.v", "Num/FloatCheck.v", "Num/FloatSpec.v", "Num/FloatCheckProofs.v", "Num/FloatCheckSound.v", "Num/FloatInterval.v", "Num/ShortestSound.v", "Num/FloatComplete.v",
+           "Num/SkipNumberProofs.v", "Num/Range.v", "Num/RangeProofs.v", "Num/RangeGen.v", "Num/IntPrint.v", "Num/IntPrintProofs.v", "Num/IntPrintExact.v",
+           "Num/FloatFmt.v", "Num/FloatFmtProofs.v", "Num/WriteDecDenotes.v", "Num/FloatFmt32Proofs.v", "Num/FloatCheck.v", "Num/FloatSpec.v", "Num/FloatCheckProofs.v", "Num/FloatCheckSound.v", "Num/FloatInterval.v", "Num/ShortestSound.v", "Num/FloatComplete.v", "Num/ShortestComplete.v",
            "Num/VNumber.v", "Num/Api.v", "Num/Refuted.v"]
 
 CLAIM = {
-    "gens": [],
+    "gens": ["NumTables"],
     "category": "proof",
     "text": ("Theorems (Coq, all inputs, no bound) about executable models that follow native/scanning.h, fastint.h, f64toa.c/f32toa.c, "
              "the jitdec range checks and alg.IsValidNumber: vsigned/vunsigned return the literal's exact integer value iff it is in range and "
@@ -74,7 +74,7 @@ def _hexs(s):
 def run(ctx):
     ctx.level = "proof"
     ctx.trusted = c.TRUSTED_COMMON + [
-        c.TRUSTED_EXTRACT,
+        c.TRUSTED_EXTRACT, c.TRUSTED_TX,
         "strconv.ParseFloat/ParseInt/ParseUint/FormatFloat/AppendInt and encoding/json as oracles of the conversions",
         "hand-written Gallina models of native/scanning.h (vinteger, vnumber_1, do_skip_number, skip_number_1), native/fastint.h, the notation part of "
         "native/f64toa.c and f32toa.c, the jitdec range checks and alg.IsValidNumber; the pre-assembled blobs (avx2 and sse) and the Go paths are tied by runs only",
